@@ -798,15 +798,17 @@ def gen_job(rng, depth=3):
 
 # ---------------------------------------------------------------- fixed cases run before the generated ones
 def seed_jobs():
-    """hand-written cases: the sharing scenarios, the borderline parameters that make rules
-    panic, duplicate after add_factory (defaults and factories must be copied)"""
+    """hand-written cases: the sharing scenarios (shallow copies followed by array_to_append / map_to_index /
+    rename_arguments: harmless since /repo a8e18fa, they pin that down), the witnesses of the open findings
+    (stale constraint, unchecked merge target, assumed shape), compose with two plugin types, the borderline
+    parameters that make rules panic, duplicate after add_factory (defaults and factories must be copied)"""
     def C(v):
         return S("string", val=dstr(v))
     base = [{"pkg": "alpha", "meta": {}, "entry": "", "objects": [
         {"name": "Foo", "type": {"k": "struct", "fields": [
             {"name": "tags", "type": {"k": "array", "v": S("string")}, "req": True},
             {"name": "name", "type": S("string", cs=[{"op": "minLength", "args": [irgen.dint(1, "int64")]}]), "req": True},
-            {"name": "flag", "type": S("bool", **{"def": dbool(True)}), "req": True},
+            {"name": "flag", "type": S("bool", **{"def": dbool(True)}), "req": True, "comments": ["a flag", "on by default"]},
             {"name": "labels", "type": {"k": "map", "i": S("string"), "v": S("bool")}, "req": False},
             {"name": "choice", "type": {"k": "disj", "branches": [S("string"), S("int64")]}, "req": False},
             {"name": "either", "type": {"k": "disj", "branches": [{"k": "map", "i": S("string"), "v": S("bool")}, S("string")]}, "req": False},
